@@ -15,14 +15,17 @@ import (
 	"context"
 	"errors"
 	"fmt"
+	"net"
 	"os"
 	"path/filepath"
+	"regexp"
 	"sort"
 	"strings"
 	"sync"
 	"sync/atomic"
 	"testing"
 	"time"
+	"unicode/utf8"
 
 	"github.com/emersion/go-message/textproto"
 	"github.com/emersion/go-smtp"
@@ -112,6 +115,9 @@ func initDomains() error {
 			return fmt.Errorf("A-label %q does not decode to %q", a, d)
 		}
 		idnA[d] = a
+	}
+	if err := initIDNSpellings(); err != nil {
+		return err
 	}
 	// self-check of the hostile local part pools: each must really be what its pool says
 	for _, l := range nfdLocals {
@@ -331,6 +337,17 @@ type errSpec struct {
 	// NoEnh: the target reported a basic code only (a next hop without
 	// enhanced status codes); Enh is 0.0.0.
 	NoEnh bool `json:"no_enhanced_code,omitempty"`
+	// Inner: the SMTPError wraps (Err) another error that carries a code,
+	// enhanced code and text of its own, as target.remote's "No usable MXs,
+	// last err: ..." wraps the reply of the last MX. The outer error is the
+	// one that was returned: its status is the recipient's last status.
+	Inner *innerErr `json:"inner,omitempty"`
+}
+
+type innerErr struct {
+	Code int    `json:"code"`
+	Enh  [3]int `json:"enh"`
+	Text string `json:"text"`
 }
 
 type codePair struct {
@@ -424,10 +441,61 @@ func hostileText(q *prng.R, n int) (string, string, bool) {
 	}
 }
 
-func genErr(p, q *prng.R, class string, n int) *errSpec {
+// eightBitText: reply texts with octets outside of ASCII in every encoding a
+// next hop may use (nothing obliges a server without SMTPUTF8 to send ASCII,
+// and nothing guarantees that what it sends is UTF-8): valid UTF-8 of 2, 3
+// and 4 octets per character, C1 controls / NBSP / LINE SEPARATOR written in
+// UTF-8, ISO-8859-1 and Windows-1251 octets, truncated, overlong and
+// surrogate sequences, lone continuation octets, 0xFE 0xFF, 8-bit octets
+// across line breaks, a text without any ASCII, a kilobyte of 8-bit octets
+// without a break. The genText classes "utf8" and "u0080" stay as they are.
+// Drawn from a stream of its own (keyed like the fault). A report of a message
+// sent WITHOUT SMTPUTF8 is itself sent without SMTPUTF8 and has a
+// message/delivery-status part (7-bit, RFC 3464 2.1): none of these octets may
+// show up in its header or in its delivery-status fields.
+var eightBitKinds = []string{"8bit-utf8-latin", "8bit-utf8-4-octet", "8bit-latin1", "8bit-cp1251", "8bit-truncated-utf8", "8bit-overlong-and-surrogate", "8bit-lone-continuation-fe-ff", "8bit-across-line-breaks", "8bit-no-ascii-at-all", "8bit-c1-nbsp-linesep", "8bit-very-long-token"}
+
+func eightBitText(r8 *prng.R, n int) (string, string, bool) {
+	if !r8.Chance(1, 5) {
+		return "", "", false
+	}
+	tok := fmt.Sprintf("tok%04d", n)
+	k := r8.Intn(len(eightBitKinds))
+	var t string
+	switch k {
+	case 0:
+		t = "Bo\u00eete aux lettres pleine \u2014 r\u00e9essayez plus tard " + tok
+	case 1:
+		t = "mailbox full \U0001F4EA \U0001D518\U0001D52B\U0001D526 " + tok
+	case 2:
+		t = "Bo\xeete aux lettres pleine, r\xe9essayez " + tok + " \xa7\xb0"
+	case 3:
+		t = "\xff\xf9\xe8\xea \xef\xe5\xf0\xe5\xef\xee\xeb\xed\xe5\xed " + tok
+	case 4:
+		t = "quota exceeded \xe2\x82 " + tok + " \xf0\x9f\x93"
+	case 5:
+		t = "\xc0\xaf \xe0\x80\xaf \xed\xa0\x80 \xf4\x90\x80\x80 " + tok
+	case 6:
+		t = "\x80\xbf \xfe\xff " + tok + " \xbf"
+	case 7:
+		t = "premi\u00e8re ligne " + tok + "\r\ndeuxi\xe8me ligne\n\u0442\u0440\u0435\u0442\u044c\u044f \u0441\u0442\u0440\u043e\u043a\u0430\r\n\xe9"
+	case 8:
+		t = "\u043e\u0448\u0438\u0431\u043a\u0430"
+	case 9:
+		t = "no\u00a0break\u0085next\u009bcsi\u2028line " + tok
+	default:
+		t = strings.Repeat("\xe9\xe8", 600) + tok
+	}
+	return t, eightBitKinds[k], true
+}
+
+func genErr(p, q, r8, nst *prng.R, class string, n int) *errSpec {
 	e := &errSpec{Class: class}
 	e.Text, e.TextKind = genText(p, n)
 	if t, k, ok := hostileText(q, n); ok {
+		e.Text, e.TextKind = t, k
+	}
+	if t, k, ok := eightBitText(r8, n); ok {
 		e.Text, e.TextKind = t, k
 	}
 	switch class {
@@ -447,6 +515,16 @@ func genErr(p, q *prng.R, class string, n int) *errSpec {
 		e.NoEnh = true
 		e.Enh = [3]int{}
 	}
+	// stream of its own: nested SMTP errors
+	if e.Annotated && nst.Chance(1, 4) {
+		for {
+			c := prng.Pick(nst, append(append([]codePair{}, tempCodes...), permCodes...))
+			if c.code != e.Code && c.enh != e.Enh {
+				e.Inner = &innerErr{Code: c.code, Enh: c.enh, Text: fmt.Sprintf("reply of the last host inner%04d", n)}
+				break
+			}
+		}
+	}
 	return e
 }
 
@@ -454,12 +532,21 @@ func (e *errSpec) build() error {
 	var err error
 	switch {
 	case e.Annotated:
+		inner := errors.New("inner detail")
+		if e.Inner != nil {
+			inner = &exterrors.SMTPError{
+				Code:         e.Inner.Code,
+				EnhancedCode: exterrors.EnhancedCode{e.Inner.Enh[0], e.Inner.Enh[1], e.Inner.Enh[2]},
+				Message:      e.Inner.Text,
+				TargetName:   "verif-inner",
+			}
+		}
 		err = &exterrors.SMTPError{
 			Code:         e.Code,
 			EnhancedCode: exterrors.EnhancedCode{e.Enh[0], e.Enh[1], e.Enh[2]},
 			Message:      e.Text,
 			TargetName:   "verif",
-			Err:          errors.New("inner detail"),
+			Err:          inner,
 		}
 	case e.Class == mx.Temp:
 		err = exterrors.WithTemporary(errors.New(e.Text), true)
@@ -499,6 +586,10 @@ type msgPlan struct {
 	FromAlt   *mailbox // rewritten envelope sender (From), when different from OriginalFrom
 	Rcpts     []rcptPlan
 	HeaderRaw []byte
+	// EHLO name of the client that handed the message in (MsgMetadata.Conn.Hostname, quoted as
+	// Received-From-MTA by the report); "" = no connection metadata. Group A only.
+	Ehlo      string
+	EhloClass string
 	// group B: the addresses the client gives in RCPT TO, in order (Rcpts then
 	// lists what the pipeline makes of them, i.e. what the queue is given)
 	Client []string
@@ -527,12 +618,18 @@ type scenario struct {
 	// (stream "c18-queue-options")
 	QDebug        bool   // debug yes
 	AutogenDomain string // autogenerated_msg_domain
+	// how an internationalized autogenerated_msg_domain / hostname is written
+	// (ascii | u-label | a-label | mixed-case-u-label | upper-case-u-label |
+	// upper-case-a-label | mixed-labels | nfd-u-label); stream "c18-idn-options"
+	AutogenSpelling  string
+	HostnameSpelling string
 	NoBounce      bool   // no bounce { } block: no report can be generated at all
 
 	// group B (message reaches the queue through a real pipeline)
 	pipe      *pipePlan
 	forcePerm bool           // every injected failure is permanent (the queue has its production retry delays)
 	rwKind    map[int]string // client-supplied mailbox id -> how the pipeline rewrites it
+	merged    map[int]bool   // client-supplied mailbox ids that share their rewrite target with another one
 }
 
 var autogenDomains = []string{"reports.example.org", "example.org", "mx.example.org", "bounces.mail.example.net", "\u043f\u043e\u0447\u0442\u0430.example"}
@@ -544,6 +641,93 @@ func genQueueOptions(sc *scenario, seed uint64, ci int) {
 	sc.QDebug = p3.Chance(1, 2)
 	sc.AutogenDomain = autogenDomains[p3.Weighted([]int{4, 2, 2, 2, 1})]
 	sc.NoBounce = p3.Chance(1, 16)
+
+	// An administrator may write an internationalized domain in any spelling;
+	// a report of a message without SMTPUTF8 has to come out 7-bit whatever
+	// the spelling is. Stream of its own: the options above keep their place.
+	sc.AutogenSpelling, sc.HostnameSpelling = "ascii", "ascii"
+	if !pureASCII(sc.AutogenDomain) {
+		sc.AutogenSpelling = "u-label"
+	}
+	if !pureASCII(sc.Hostname) {
+		sc.HostnameSpelling = "u-label"
+	}
+	p4 := prng.New(seed, uint64(ci), "c18-idn-options")
+	pickSpelling := func() idnSpelling {
+		// the kind first, so that every kind is equally frequent
+		k := prng.Pick(p4, idnSpellingKinds)
+		var c []idnSpelling
+		for _, sp := range idnSpellings {
+			if sp.kind == k {
+				c = append(c, sp)
+			}
+		}
+		return c[p4.Intn(len(c))]
+	}
+	if p4.Chance(1, 3) {
+		sp := pickSpelling()
+		sc.AutogenDomain, sc.AutogenSpelling = sp.dom, sp.kind
+	}
+	if p4.Chance(1, 3) {
+		sp := pickSpelling()
+		sc.Hostname, sc.HostnameSpelling = prng.Pick(p4, []string{"mx.", "mail.", ""})+sp.dom, sp.kind
+	}
+}
+
+type idnSpelling struct{ dom, kind string }
+
+// idnSpellings: filled by initDomains from idnOptionBases (A-label forms are
+// derived with x/net/idna, never typed in).
+var idnSpellings []idnSpelling
+var idnSpellingKinds = []string{"u-label", "a-label", "mixed-case-u-label", "upper-case-u-label", "upper-case-a-label", "mixed-labels", "nfd-u-label"}
+
+func initIDNSpellings() error {
+	add := func(d, k string) { idnSpellings = append(idnSpellings, idnSpelling{d, k}) }
+	toA := func(d string) (string, error) {
+		a, err := idna.ToASCII(d)
+		if err != nil || !pureASCII(a) || !strings.Contains(a, "xn--") {
+			return "", fmt.Errorf("cannot derive the A-label form of %q: %v %q", d, err, a)
+		}
+		return a, nil
+	}
+	// every label internationalized, so that each label has both forms
+	for _, b := range []struct{ lower, mixed string }{
+		{"\u043f\u043e\u0447\u0442\u0430.\u0440\u0444", "\u041f\u043e\u0447\u0442\u0430.\u0420\u0424"},
+		{"b\u00fccher.\u00f6sterreich.example", "B\u00fccher.\u00d6sterreich.Example"},
+		{"\u03b4\u03bf\u03ba\u03b9\u03bc\u03ae.\u03b5\u03bb", "\u0394\u03bf\u03ba\u03b9\u03bc\u03ae.\u0395\u03bb"},
+	} {
+		a, err := toA(b.lower)
+		if err != nil {
+			return err
+		}
+		add(b.lower, "u-label")
+		add(a, "a-label")
+		add(b.mixed, "mixed-case-u-label")
+		add(strings.ToUpper(b.lower), "upper-case-u-label")
+		add(strings.ToUpper(a), "upper-case-a-label")
+		ul, al := strings.Split(b.lower, "."), strings.Split(a, ".")
+		if len(ul) != len(al) || len(ul) < 2 {
+			return fmt.Errorf("label count of %q and %q differs", b.lower, a)
+		}
+		add(ul[0]+"."+strings.Join(al[1:], "."), "mixed-labels")
+		add(al[0]+"."+strings.Join(ul[1:], "."), "mixed-labels")
+		nfd := norm.NFD.String(b.lower)
+		if nfd != b.lower {
+			add(nfd, "nfd-u-label")
+		}
+	}
+	for _, k := range idnSpellingKinds {
+		n := 0
+		for _, sp := range idnSpellings {
+			if sp.kind == k {
+				n++
+			}
+		}
+		if n == 0 {
+			return fmt.Errorf("no domain spelled %s", k)
+		}
+	}
+	return nil
 }
 
 func genHeader(p *prng.R, utf8 bool) []byte {
@@ -686,7 +870,29 @@ func genScenario(p *prng.R, seed uint64, ci int) *scenario {
 		sc.Msgs = append(sc.Msgs, m)
 	}
 	genQueueOptions(sc, seed, ci)
+	// stream of its own: whatever a client says in EHLO (no endpoint validates it)
+	pe := prng.New(seed, uint64(ci), "c18-ehlo")
+	for _, m := range sc.Msgs {
+		if pe.Chance(1, 2) {
+			e := ehloNames[pe.Intn(len(ehloNames))]
+			m.Ehlo, m.EhloClass = e.name, e.class
+		}
+	}
 	return sc
+}
+
+// ehloNames: the classes of harness/c01/domains_test.go. The queue keeps
+// MsgMetadata.Conn and the report quotes Conn.Hostname as Received-From-MTA;
+// whatever the client said there, the report has to exist and be well-formed.
+var ehloNames = []struct{ name, class string }{
+	{"client.example.net", "plain"}, {"CLIENT.Example.NET.", "case-trailing-dot"},
+	{"[192.0.2.10]", "ipv4-literal"}, {"[IPv6:2001:db8::10]", "ipv6-literal"}, {"192.0.2.10", "bare-ip"},
+	{"mail_gw1.example.com", "underscore"}, {"localhost", "single-label"}, {"-gw-.example.com", "hyphens"},
+	{"\u043f\u043e\u0447\u0442\u0430.example", "u-label"}, {"xn--80a1acny.example", "a-label"}, {"XN--80A1ACNY.example", "upper-a-label"},
+	{"xn--999999999.example", "invalid-a-label"}, {"xn--0", "invalid-a-label"}, {"xn--.example", "invalid-a-label"}, {"xn--a-ecp.ru.xn--", "invalid-a-label"},
+	{"a..example", "empty-label"}, {".example", "empty-label"},
+	{"l" + strings.Repeat("o", 70) + "ng.example", "label-over-63"}, {strings.Repeat("a2345678.", 30) + "example", "name-over-253"},
+	{"caf\xe9.example", "invalid-utf8"}, {"gw 1.example", "space"}, {"ab\u00adcd.example", "soft-hyphen"},
 }
 
 // ---------------------------------------------------------------- fault plan (lazy, deterministic per point)
@@ -728,6 +934,8 @@ func (pl *planner) decide(pt mx.Point) *errSpec {
 	}
 	p := prng.New(pl.seed, uint64(pl.ci), "c18-fault|"+key)
 	q := prng.New(pl.seed, uint64(pl.ci), "c18-hostile-text|"+key)
+	r8 := prng.New(pl.seed, uint64(pl.ci), "c18-8bit-text|"+key)
+	nst := prng.New(pl.seed, uint64(pl.ci), "c18-nested-error|"+key)
 	// attempt-level disposition, shared by all stages of the attempt
 	pa := prng.New(pl.seed, uint64(pl.ci), fmt.Sprintf("c18-att|%s|%d", id, pt.Attempt))
 	attKind := pa.Weighted([]int{6, 1, 1, 1}) // per-recipient, start, body, commit
@@ -744,23 +952,23 @@ func (pl *planner) decide(pt mx.Point) *errSpec {
 	switch pt.Stage {
 	case mx.StStart:
 		if attKind == 1 {
-			e = genErr(p, q, pickClass(p), n)
+			e = genErr(p, q, r8, nst, pickClass(p), n)
 		}
 	case mx.StBody:
 		if attKind == 2 {
-			e = genErr(p, q, pickClass(p), n)
+			e = genErr(p, q, r8, nst, pickClass(p), n)
 		}
 	case mx.StCommit:
 		if attKind == 3 {
-			e = genErr(p, q, pickClass(p), n)
+			e = genErr(p, q, r8, nst, pickClass(p), n)
 		}
 	case mx.StRcpt:
 		if p.Chance(2, 5) {
-			e = genErr(p, q, pickClass(p), n)
+			e = genErr(p, q, r8, nst, pickClass(p), n)
 		}
 	case mx.StStatus:
 		if p.Chance(2, 5) {
-			e = genErr(p, q, pickClass(p), n)
+			e = genErr(p, q, r8, nst, pickClass(p), n)
 		}
 	}
 	pl.sc.faults[key] = e
@@ -895,6 +1103,9 @@ type expReport struct {
 	attempt int
 	// original-address class id -> last error of a recipient mapped to it
 	rcpts   map[int][]*errSpec
+	// original-address class id -> last errors the recipients mapped to it met
+	// in EARLIER attempts (they were retried; only group A has such histories)
+	prior   map[int][]*errSpec
 	matched bool
 }
 
@@ -989,9 +1200,12 @@ func runCase(t *testing.T, r *rep.Reporter, c *rep.Case, ci int, capture *logCap
 	}()
 	ctx := context.Background()
 
-	submit := func(id, from, origFrom string, rcpts []string, origRcpts map[string]string, utf8 bool, hdr textproto.Header, body []byte) error {
+	submit := func(id, from, origFrom string, rcpts []string, origRcpts map[string]string, utf8 bool, hdr textproto.Header, body []byte, ehlo string) error {
 		meta := &module.MsgMetadata{ID: id, OriginalFrom: origFrom, OriginalRcpts: origRcpts}
 		meta.SMTPOpts.UTF8 = utf8
+		if ehlo != "" {
+			meta.Conn = &module.ConnState{Proto: "ESMTP", Hostname: ehlo, RemoteAddr: &net.TCPAddr{IP: net.IPv4(192, 0, 2, 10), Port: 4242}, LocalAddr: &net.TCPAddr{IP: net.IPv4(192, 0, 2, 1), Port: 25}}
+		}
 		d, err := q.Start(ctx, meta, from)
 		if err != nil {
 			return err
@@ -1016,6 +1230,7 @@ func runCase(t *testing.T, r *rep.Reporter, c *rep.Case, ci int, capture *logCap
 			// what an endpoint does: OriginalFrom = MAIL FROM, then MAIL / RCPT / DATA into the pipeline
 			meta := &module.MsgMetadata{ID: m.ID, OriginalFrom: m.OrigFrom}
 			meta.SMTPOpts.UTF8 = sc.UTF8
+			meta.Conn = &module.ConnState{Proto: "ESMTP", Hostname: m.Ehlo, RemoteAddr: &net.TCPAddr{IP: net.IPv4(192, 0, 2, 10), Port: 4242}, LocalAddr: &net.TCPAddr{IP: net.IPv4(192, 0, 2, 1), Port: 25}}
 			d, err := pipe.Start(ctx, meta, m.OrigFrom)
 			if err != nil {
 				t.Fatalf("harness: pipeline refused MAIL FROM %q: %v\n%s", m.OrigFrom, err, sc.pipe.text)
@@ -1041,7 +1256,7 @@ func runCase(t *testing.T, r *rep.Reporter, c *rep.Case, ci int, capture *logCap
 				orig[rp.EffSpell] = rp.OrigSpell
 			}
 		}
-		if err := submit(m.ID, m.From, m.OrigFrom, rcpts, orig, sc.UTF8, hdr, []byte("body of "+m.ID+"\r\n")); err != nil {
+		if err := submit(m.ID, m.From, m.OrigFrom, rcpts, orig, sc.UTF8, hdr, []byte("body of "+m.ID+"\r\n"), m.Ehlo); err != nil {
 			t.Fatalf("harness: queue refused the message: %v", err)
 		}
 	}
@@ -1074,7 +1289,7 @@ func runCase(t *testing.T, r *rep.Reporter, c *rep.Case, ci int, capture *logCap
 			if s.StartMeta != nil {
 				of = s.StartMeta.OriginalFrom
 			}
-			if err := submit(id, s.From, of, s.Accepted, nil, s.StartMeta != nil && s.StartMeta.UTF8, hdr, s.Body); err != nil {
+			if err := submit(id, s.From, of, s.Accepted, nil, s.StartMeta != nil && s.StartMeta.UTF8, hdr, s.Body, ""); err != nil {
 				t.Fatalf("harness: queue refused the re-injected report: %v", err)
 			}
 		}
@@ -1158,6 +1373,15 @@ func runCase(t *testing.T, r *rep.Reporter, c *rep.Case, ci int, capture *logCap
 	for _, e := range expected {
 		if e.msg.Sender != nil {
 			nExp++
+			nm := 0
+			for id := range e.rcpts {
+				if sc.merged[id] {
+					nm++
+				}
+			}
+			if nm >= 2 && !sc.NoBounce {
+				r.Count("failure_sets_with_two_originals_rewritten_to_one_failed_target", 1)
+			}
 		}
 	}
 
@@ -1246,10 +1470,30 @@ func runCase(t *testing.T, r *rep.Reporter, c *rep.Case, ci int, capture *logCap
 		if !pureASCII(sc.AutogenDomain) {
 			r.Count("reports_parsed_with_idn_autogenerated_msg_domain", 1)
 		}
+		{
+			flag := "non_smtputf8"
+			if sc.UTF8 {
+				flag = "smtputf8"
+			}
+			if sc.AutogenSpelling != "ascii" {
+				r.Count("reports_parsed_"+flag+"_autogenerated_msg_domain_"+sc.AutogenSpelling, 1)
+			}
+			if sc.HostnameSpelling != "ascii" {
+				r.Count("reports_parsed_"+flag+"_hostname_"+sc.HostnameSpelling, 1)
+			}
+		}
 		if groupB {
 			r.Count("pipeline_reports_parsed", 1)
 		}
 		rp := mx.ParseReport(b.Header, b.Body)
+		if m.Ehlo != "" {
+			r.Count("reports_parsed_of_message_with_ehlo_name_"+m.EhloClass, 1)
+			if rp.PerMsg != nil && rp.PerMsg.Get("Received-From-Mta") != "" {
+				r.Count("reports_with_received_from_mta", 1)
+			} else {
+				r.Count("reports_without_received_from_mta_although_ehlo_name_known(not judged)", 1)
+			}
+		}
 		judgeReport(r, sc, m, b, rp, expected, viol)
 	}
 
@@ -1371,7 +1615,7 @@ func describe(sc *scenario) string {
 		fmt.Fprintf(&b, " QUEUE CONFIG:\n%s\nPIPELINE CONFIG:\n%s\nREFERENCED TABLES:\n%s\n", sc.pipe.queueText, sc.pipe.text, sc.pipe.tablesText)
 	}
 	for _, m := range sc.Msgs {
-		fmt.Fprintf(&b, " msg %s from=%q orig_from=%q rcpts=[", m.ID, m.From, m.OrigFrom)
+		fmt.Fprintf(&b, " msg %s from=%q orig_from=%q ehlo=%q rcpts=[", m.ID, m.From, m.OrigFrom, m.Ehlo)
 		for _, rp := range m.Rcpts {
 			if rp.Orig != nil {
 				fmt.Fprintf(&b, "%q(client used %q) ", rp.EffSpell, rp.OrigSpell)
@@ -1400,6 +1644,7 @@ func expectedReports(sc *scenario, events []mx.Event) []*expReport {
 		pending := []rcptPlan{}
 		pending = append(pending, m.Rcpts...)
 		tries := map[string]int{}
+		hist := map[string][]*errSpec{} // effective recipient -> its last error in each earlier attempt
 		for ai, att := range byMsg[m.ID] {
 			att.Attempt = ai + 1
 			if len(pending) == 0 {
@@ -1449,7 +1694,7 @@ func expectedReports(sc *scenario, events []mx.Event) []*expReport {
 					}
 				}
 			}
-			exp := &expReport{msg: m, attempt: att.Attempt, rcpts: map[int][]*errSpec{}}
+			exp := &expReport{msg: m, attempt: att.Attempt, rcpts: map[int][]*errSpec{}, prior: map[int][]*errSpec{}}
 			var next []rcptPlan
 			for _, rp := range pending {
 				e := last[rp.EffSpell]
@@ -1462,9 +1707,11 @@ func expectedReports(sc *scenario, events []mx.Event) []*expReport {
 						id = rp.Orig.id
 					}
 					exp.rcpts[id] = append(exp.rcpts[id], e)
+					exp.prior[id] = append(exp.prior[id], hist[rp.EffSpell]...)
 					continue
 				}
 				tries[rp.EffSpell]++
+				hist[rp.EffSpell] = append(hist[rp.EffSpell], e)
 				next = append(next, rp)
 			}
 			pending = next
@@ -1474,6 +1721,74 @@ func expectedReports(sc *scenario, events []mx.Event) []*expReport {
 		}
 	}
 	return out
+}
+
+var tokRe = regexp.MustCompile(`tok[0-9]{4,}`)
+
+// judgeStale: "with their last status codes" for histories of several
+// attempts. When the error that made the recipient fail terminally carries no
+// SMTP status (plain Go error, marker error), the queue invents a generic one
+// (toSMTPErr: 554 5.0.0 or 451 4.0.0 "Internal server error"); the report
+// must then not show what an EARLIER attempt of that recipient ended with.
+// Stale = every candidate last error is without SMTP status and the reported
+// group reproduces an annotated error of an earlier attempt: its code and
+// enhanced code (unless they coincide with one of the two generic pairs, then
+// the codes prove nothing) or the per-fault token of its text (the generator
+// numbers every injected error, "tokNNNN", and the generic text has none).
+// Returns true when a violation was reported (the group is not judged further).
+func judgeStale(r *rep.Reporter, g mx.ReportRcpt, cands, prior []*errSpec, report func(what string)) bool {
+	if len(cands) == 0 {
+		return false
+	}
+	for _, e := range cands {
+		if e.Annotated {
+			return false
+		}
+	}
+	nAnn := 0
+	for _, pe := range prior {
+		if !pe.Annotated {
+			continue
+		}
+		nAnn++
+		enh := pe.Enh
+		if pe.NoEnh {
+			enh = [3]int{pe.Code / 100, 0, 0}
+		}
+		generic := (pe.Code == 554 && enh == [3]int{5, 0, 0}) || (pe.Code == 451 && enh == [3]int{4, 0, 0})
+		if !generic && g.DiagCode == pe.Code && g.DiagEnh == enh {
+			report(fmt.Sprintf("the report shows %d %d.%d.%d, which is what an earlier attempt ended with; the attempt in which the recipient failed terminally ended with an error without SMTP status", pe.Code, enh[0], enh[1], enh[2]))
+			return true
+		}
+		if tok := tokRe.FindString(pe.Text); tok != "" && strings.Contains(g.DiagText, tok) {
+			report(fmt.Sprintf("Diagnostic-Code quotes the reply text of an earlier attempt (%s); the attempt in which the recipient failed terminally ended with an error without SMTP status", tok))
+			return true
+		}
+	}
+	if nAnn > 0 {
+		r.Count("status_checked_statusless_last_error_after_annotated_earlier_attempt", 1)
+		for _, e := range cands {
+			r.Count("status_checked_statusless_last_error_after_annotated_earlier_attempt_last_"+e.Class, 1)
+		}
+	} else if len(prior) > 0 {
+		r.Count("status_checked_statusless_last_error_after_statusless_earlier_attempt", 1)
+	}
+	return false
+}
+
+// count8bitText: the last error of a listed recipient was a next hop reply
+// (code + text) whose text has octets outside of ASCII; counted per text
+// class and per SMTPUTF8 flag of the failed message.
+func count8bitText(r *rep.Reporter, sc *scenario, e *errSpec) {
+	if pureASCII(e.Text) {
+		return
+	}
+	flag := "non_smtputf8"
+	if sc.UTF8 {
+		flag = "smtputf8"
+	}
+	r.Count("reply_text_8bit_in_"+flag+"_report", 1)
+	r.Count("reply_text_"+e.TextKind+"_in_"+flag+"_report", 1)
 }
 
 func stripWS(s string) string {
@@ -1486,6 +1801,7 @@ func judgeReport(r *rep.Reporter, sc *scenario, m *msgPlan, b *mx.DeliverySummar
 	for _, pr := range rp.Problems {
 		viol("well-formed/"+pr, "the report handed to the bounce target is not a well-formed multipart/report: "+pr, w)
 	}
+	judgeOctets(r, sc, m, b, rp, viol, w)
 	if len(rp.Problems) > 0 && len(rp.Rcpts) == 0 {
 		return
 	}
@@ -1582,7 +1898,18 @@ func judgeReport(r *rep.Reporter, sc *scenario, m *msgPlan, b *mx.DeliverySummar
 		}
 		w.Expected = fmt.Sprintf("attempt %d: classes %v", firstOpen.attempt, keys(firstOpen.rcpts))
 		w.Observed = fmt.Sprintf("classes %v", obs)
-		if len(missing) > 0 {
+		allMerged := len(missing) > 0 && len(extra) == 0
+		for _, id := range missing {
+			if !sc.merged[id] {
+				allMerged = false
+			}
+		}
+		if allMerged {
+			// cause class of its own: two addresses of the sender are rewritten to ONE address, that
+			// address fails, and the report names only one of the two
+			sort.Ints(missing)
+			viol("recipients/terminal-failure-not-listed/original-merged-with-another-into-one-target", fmt.Sprintf("message %s attempt %d: recipient class(es) %v failed terminally (they are rewritten to the same address as another recipient of the message, and that address failed) but are not in the report", m.ID, firstOpen.attempt, missing), w)
+		} else if len(missing) > 0 {
 			viol("recipients/terminal-failure-not-listed", fmt.Sprintf("message %s attempt %d: recipient class(es) %v failed terminally but are not in the report", m.ID, firstOpen.attempt, missing), w)
 		}
 		if len(extra) > 0 {
@@ -1624,6 +1951,14 @@ func judgeReport(r *rep.Reporter, sc *scenario, m *msgPlan, b *mx.DeliverySummar
 		}
 		okAny := false
 		var want []string
+		if judgeStale(r, g, cands, match.prior[id], func(what string) {
+			w2 := w
+			w2.Expected = "code, enhanced code and text of the LAST error of that recipient (an error without SMTP status: the queue's generic 554 5.0.0 / 451 4.0.0)"
+			w2.Observed = fmt.Sprintf("Status %v, Diagnostic-Code %d %v %q", g.Status, g.DiagCode, g.DiagEnh, first(g.DiagText, 200))
+			viol("status/stale-status-from-earlier-attempt", fmt.Sprintf("recipient %q: %s", g.Addr, what), w2)
+		}) {
+			continue
+		}
 		for _, e := range cands {
 			if e.Annotated && e.NoEnh {
 				// basic code only: the report must still exist and show that code
@@ -1633,12 +1968,20 @@ func judgeReport(r *rep.Reporter, sc *scenario, m *msgPlan, b *mx.DeliverySummar
 					okAny = true
 					r.Count("status_codes_checked_basic_code_only", 1)
 					r.Count("status_checked_text_"+e.TextKind, 1)
+					count8bitText(r, sc, e)
+					if e.Inner != nil {
+						r.Count("status_checked_smtp_error_wrapping_another_smtp_error", 1)
+					}
 				}
 			} else if e.Annotated {
 				want = append(want, fmt.Sprintf("%d %d.%d.%d", e.Code, e.Enh[0], e.Enh[1], e.Enh[2]))
 				if g.DiagCode == e.Code && g.DiagEnh == e.Enh && g.Status == e.Enh {
 					okAny = true
 					r.Count("status_checked_text_"+e.TextKind, 1)
+					count8bitText(r, sc, e)
+					if e.Inner != nil {
+						r.Count("status_checked_smtp_error_wrapping_another_smtp_error", 1)
+					}
 					if stripWS(g.DiagText) == stripWS(e.Text) {
 						r.Count("diagnostic_text_equal", 1)
 					} else {
@@ -1660,6 +2003,10 @@ func judgeReport(r *rep.Reporter, sc *scenario, m *msgPlan, b *mx.DeliverySummar
 				if e.Annotated && !e.NoEnh && g.DiagCode == e.Code && g.DiagEnh != e.Enh {
 					sig = "status/enhanced-code-lost"
 				}
+				if e.Inner != nil && (g.DiagCode == e.Inner.Code || g.DiagEnh == e.Inner.Enh || strings.Contains(g.DiagText, e.Inner.Text)) {
+					// the report shows (part of) what the error that was returned merely wraps
+					sig = "status/status-of-a-wrapped-error"
+				}
 			}
 			w2 := w
 			w2.Expected = want
@@ -1673,6 +2020,11 @@ func judgeReport(r *rep.Reporter, sc *scenario, m *msgPlan, b *mx.DeliverySummar
 	// --- original header
 	want := mx.UnfoldHeader(m.HeaderRaw)
 	got := mx.UnfoldHeader(rp.OrigHeader)
+	if sc.pipe != nil && len(got) == len(want)+1 && strings.EqualFold(got[0].Name, "Received") {
+		// group B: the first pipeline put its trace field on top of what the client sent
+		got = got[1:]
+		r.Count("original_headers_with_received_field_of_first_pipeline", 1)
+	}
 	if len(rp.Parts) >= 3 {
 		same := len(want) == len(got)
 		if same {
@@ -1701,6 +2053,88 @@ func judgeReport(r *rep.Reporter, sc *scenario, m *msgPlan, b *mx.DeliverySummar
 		return "-"
 	}()))
 	_ = filepath.Join
+}
+
+// judgeOctets: well-formedness with respect to the octets a report may
+// contain. A report that is handed over WITHOUT the SMTPUTF8 flag is an
+// ordinary RFC 5322 message: its header and the MIME headers of its parts are
+// 7-bit. A message/delivery-status part is 7-bit whatever the flag says (RFC
+// 3464 2.1 "the body of a message/delivery-status is 7bit"); octets outside
+// of ASCII in the delivery-status fields need message/global-delivery-status
+// (RFC 6533 3), which in turn needs the report to be a SMTPUTF8 message.
+// Deliberately NOT judged: the text/plain part (declared 8bit, charset
+// utf-8), the third part (the original header is returned as it came),
+// whether 8-bit octets of a global-delivery-status part are valid UTF-8 (a
+// next hop's Latin-1 reply is copied byte for byte; counted), and the
+// agreement of the report's flag with the flag of the failed message.
+func judgeOctets(r *rep.Reporter, sc *scenario, m *msgPlan, b *mx.DeliverySummary, rp *mx.Report, viol func(sig, what string, w witness), w witness) {
+	meta := b.StartMeta
+	if meta == nil {
+		meta = b.BodyMeta
+	}
+	if meta == nil {
+		return
+	}
+	flagged := meta.UTF8
+	if b.BodyMeta != nil && b.BodyMeta.UTF8 != flagged {
+		// cannot happen with one metadata object per delivery; do not guess
+		r.Count("report_smtputf8_flag_changed_between_start_and_body(not judged)", 1)
+		return
+	}
+	statusType := ""
+	if len(rp.Parts) >= 2 {
+		statusType = rp.Parts[1].MediaType
+	}
+	fieldClass := func(f string) string {
+		if f == "" || len(f) > 40 {
+			return "other"
+		}
+		for i := 0; i < len(f); i++ {
+			c := f[i]
+			if !(c >= 'a' && c <= 'z' || c >= '0' && c <= '9' || c == '-') {
+				return "other"
+			}
+		}
+		return f
+	}
+	if flagged {
+		r.Count("smtputf8_reports_octets_checked", 1)
+	} else {
+		r.Count("non_smtputf8_reports_octets_checked", 1)
+	}
+	for _, f := range rp.Header8bit {
+		if flagged {
+			r.Count("smtputf8_reports_with_8bit_header_field_"+fieldClass(f), 1)
+			continue
+		}
+		if f == "to" && !pureASCII(m.OrigFrom) {
+			// Harness artefact, not judged: To: is MsgMeta.OriginalFrom, which the endpoint sets to the
+			// argument of MAIL FROM as the client sent it; a client without SMTPUTF8 cannot send a
+			// non-ASCII address (550 5.6.7), so outside of this harness (which hands the queue U-label
+			// senders for messages without SMTPUTF8 to exercise the report's RCPT) it is ASCII here.
+			r.Count("non_smtputf8_report_to_field_8bit_because_harness_gave_u_label_sender(not judged)", 1)
+			continue
+		}
+		viol("well-formed/8bit-header-field-in-report-without-smtputf8/"+fieldClass(f), fmt.Sprintf("the report is handed over without the SMTPUTF8 flag but its header field %q contains octets outside of ASCII", f), w)
+	}
+	for _, f := range rp.PartHeader8bit {
+		if !flagged {
+			viol("well-formed/8bit-mime-part-header-in-report-without-smtputf8", fmt.Sprintf("the report is handed over without the SMTPUTF8 flag but the MIME header %q contains octets outside of ASCII", f), w)
+		}
+	}
+	for _, f := range rp.Status8bit {
+		switch {
+		case statusType != "message/global-delivery-status":
+			viol("well-formed/8bit-in-message-delivery-status/"+fieldClass(f), fmt.Sprintf("the %s part (7-bit by definition) has octets outside of ASCII in field %q; report flagged SMTPUTF8: %v", statusType, f, flagged), w)
+		case !flagged:
+			viol("well-formed/global-delivery-status-with-8bit-in-report-without-smtputf8/"+fieldClass(f), fmt.Sprintf("message/global-delivery-status with octets outside of ASCII in field %q in a report handed over without the SMTPUTF8 flag", f), w)
+		default:
+			r.Count("smtputf8_reports_with_8bit_delivery_status_field_"+fieldClass(f), 1)
+		}
+	}
+	if len(rp.Status8bit) > 0 && flagged && statusType == "message/global-delivery-status" && len(rp.Parts) >= 2 && !utf8.Valid(rp.Parts[1].Body) {
+		r.Count("smtputf8_reports_with_invalid_utf8_in_global_delivery_status(not judged)", 1)
+	}
 }
 
 func pureASCII(s string) bool {
